@@ -309,7 +309,7 @@ var equalKinds = []string{"identity", "permute-inputs", "permute-outputs", "perm
 var differKinds = []string{
 	"single:label-name", "single:label-pkg", "single:command", "single:content", "single:add-input", "single:remove-input", "single:rename-input",
 	"single:output", "single:dep", "single:fp-value", "single:fp-key", "single:platform",
-	"shift:file-boundary", "shift:present-absent", "shift:list-element-inputs", "shift:label-command", "shift:command-inputs",
+	"shift:file-boundary", "shift:file-boundary-header", "shift:present-absent", "shift:list-element-inputs", "shift:label-command", "shift:command-inputs",
 	"shift:inputs-outputs", "shift:outputs-deps", "shift:deps-fingerprint", "shift:fingerprint-platform", "shift:fp-key-value", "shift:fp-list-element",
 }
 
@@ -456,6 +456,30 @@ func derive(t *rapid.T, a *State, kind string) (State, bool) {
 		k := rapid.IntRange(1, len(src)).Draw(t, "k")
 		b.Files[ps[i]] = src[:len(src)-k]
 		b.Files[ps[i+1]] = src[len(src)-k:] + a.Files[ps[i+1]]
+	case "shift:file-boundary-header":
+		// the moved bytes look like a plausible frame header of the next file, so a
+		// framing that is not self-delimiting (no size, or no path) still collides
+		n1, n2 := "a.txt", "b.txt"
+		if rapid.Bool().Draw(t, "subdir") {
+			n1, n2 = "src/a", "src/b"
+		}
+		x := rapid.SampledFrom([]string{"", "X", "xy"}).Draw(t, "x")
+		y := rapid.SampledFrom([]string{"", "Y", "yz"}).Draw(t, "y")
+		hdr := rapid.SampledFrom([]string{
+			fmt.Sprintf("%d:%s", len(n2), n2),
+			n2,
+			n2 + "\x00",
+			"\x00" + n2 + "\x00",
+			fmt.Sprintf("%d:%s%d:", len(n2), n2, len(y)),
+			fmt.Sprintf("%s:%d:", n2, len(y)),
+			fmt.Sprintf("%s\n%d\n", n2, len(y)),
+			fmt.Sprintf("%s=", n2),
+			"," + n2,
+		}).Draw(t, "hdr")
+		a.Inputs = []string{n1, n2}
+		a.Files = map[string]string{n1: x + hdr, n2: y}
+		b = a.clone()
+		b.Files = map[string]string{n1: x, n2: hdr + y}
 	case "shift:present-absent":
 		// content moves from a present declared input to an absent declared input
 		a.Inputs = []string{"a", "b"}
